@@ -166,3 +166,37 @@ Theorem C01_every_interleaving_queued_at_most_once :
   reachable B s -> qcount i (Q s) <= 1 /\ (0 < qcount i (Q s) -> flag s i = true).
 Proof. exact queued_at_most_once. Qed.
 Print Assumptions C01_every_interleaving_queued_at_most_once.
+
+(** the two levels are one model: the interleaving model run atomically is the executable
+    sequential model.  A whole waker call on slot i (spawn, test-and-set, swap, link, notify back
+    to back) is an execution of Level B, and Level A's [wake_slot] changes the waker block (flags,
+    ready queue with every node linked, registered task waker, "invoked") exactly as that call
+    changes the Level B state related to it by [R]; likewise [register] is [p_start], and a
+    [pop] that finds an entry is [p_ready] followed by [p_clear] *)
+From FB Require Import QuietProofs ConcRefine.
+Theorem C01_level_b_call_is_an_execution :
+  forall (B i : nat) (s : st), (forall p, In p (Q s) -> snd p = true) -> steps B s (call i s).
+Proof. exact call_is_an_execution. Qed.
+Print Assumptions C01_level_b_call_is_an_execution.
+
+Theorem C01_level_a_wake_is_the_atomic_call :
+  forall (b i : nat) (w : world) (k : block) (s : st),
+  get_blk w b = Some k -> bfreed k = false -> i < length (bflags k) -> R k s ->
+  exists k', get_blk (wake_slot b i w) b = Some k' /\ R k' (call i s)
+             /\ length (bflags k') = length (bflags k).
+Proof. exact wake_slot_is_the_call. Qed.
+Print Assumptions C01_level_a_wake_is_the_atomic_call.
+
+Theorem C01_level_a_register_is_p_start :
+  forall (B b t : nat) (w : world) (k : block) (s : st) (r : ConcWake.pres),
+  noinj w -> get_blk w b = Some k -> R k s -> pp s = PIdle r ->
+  exists k' s', get_blk (register b t w) b = Some k' /\ step B s s' /\ R k' s' /\ pp s' = PLoop 0 /\ cur s' = t.
+Proof. exact register_is_p_start. Qed.
+Print Assumptions C01_level_a_register_is_p_start.
+
+Theorem C01_level_a_pop_is_ready_then_clear :
+  forall (B b : nat) (w : world) (k : block) (s : st) (n i : nat) (q : list nat),
+  noinj w -> get_blk w b = Some k -> bqueue k = i :: q -> i < length (bflags k) -> R k s -> pp s = PLoop n ->
+  exists w' k' s', pop b w = (PopReady i, w') /\ get_blk w' b = Some k' /\ steps B s s' /\ R k' s' /\ pp s' = PChild i n.
+Proof. exact pop_is_ready_then_clear. Qed.
+Print Assumptions C01_level_a_pop_is_ready_then_clear.
